@@ -21,6 +21,7 @@ UNIT = dict(
     prelude=['prelude.rs', 'prelude_float.rs'],
     items=COMMON + UTILS_FNS + SCORE_STUBS + [SYNC_SPEC,
         dict(kind='struct', file=T, name='ThreadLocalCache', rules=R1_TYPES),
+        fn('new', ret='c', rules=R1_TYPES, ensures=[('stores_arguments', ['C01', 'C04', 'C05', 'C06', 'C07', 'C08'], 'c.limit == limit && c.max_memory == max_memory && c.policy == policy && c.ttl == ttl && c.frequency_weight == frequency_weight && c.cache@ == cache@ && c.order@ == order@')]),
         fn('get', ret='res', requires=wf_pre(M), ensures=get_ensures(M)),
         fn('move_to_end',
            ensures=[CFG_FRAME,
